@@ -14,7 +14,7 @@ RULE = ('19 modules: (i) exhaustive sweeps of small payload spaces (ISSN, IMO, E
         'and Base58Check/Bech32 addresses from an independent encoder (all witness versions/lengths, wrong version bytes); oracle: '
         'library validate() and the reference agree on accept/reject and on the canonical value; non-trivial = accepted by a side or at '
         'edit distance 1 from an accepted string; distinct by (module, input)')
-ASSUME = ['references share util.clean look-alike table (C14), ISIN/ISRC country lists and iban.dat/be/banks.dat with the library (the statement says "given the same registry tables")',
+ASSUME = ['references share util.clean look-alike table (C14) and iban.dat/be/banks.dat with the library (the statement says "given the same registry tables"); the ISIN/ISRC country-code tables are a snapshot frozen at design time (vf/refs/tables.py)',
           'inputs on which the library raises a non-ValidationError are C01 matters (counted, not reported)',
           'Bitcoin: BIP-173 only (Bech32m/BIP-350 not demanded: the module documents P2PKH, P2SH, Bech32)']
 
@@ -219,6 +219,15 @@ def shard_exh(a):
             body = '%07d' % p
             xs = [body + c for c in '0123456789']
             name = 'ean'
+        elif kind == 'prefix':
+            # every two-letter prefix on a fixed well-formed body: country-code tables of ISIN and ISRC
+            cc = intl.U[p // 26] + intl.U[p % 26]
+            body12 = cc + '037833100'
+            chk = [c for c in '0123456789' if intl.luhn_ok(''.join(str(intl.AN.index(ch)) for ch in body12 + c))]
+            prop({'mod': 'isin', 'x': body12 + chk[0]}, res)
+            prop({'mod': 'isrc', 'x': cc + 'A1B2400017'}, res)
+            prop({'mod': 'isrc', 'x': cc.lower() + '-a1b-24-00017'}, res)
+            continue
         else:
             body = str(p)
             if len(body) < 4:
@@ -253,6 +262,8 @@ def run(ctx):
             if lo < hi:
                 ex.append({'shard': '%s[%d:%d]' % (kind, lo, hi), 'kind': kind, 'lo': lo, 'hi': hi})
         res.notes['sweep:' + kind] = 'payloads %d..%d of %d' % (start, start + span, total)
+    ex.append({'shard': 'prefix', 'kind': 'prefix', 'lo': 0, 'hi': 676})
+    res.notes['sweep:prefix'] = 'all 676 two-letter prefixes for ISIN and ISRC'
     res2 = core.run_shards(shard_exh, ex)
     res.merge(res2)
     return core.finish(ctx, res, LEVEL, RULE, ASSUME, SUBS, extra={'exhaustive': not ctx.quick,
